@@ -66,14 +66,14 @@ func one(disk bool, dir string) (string, map[string]interface{}) {
 	now := time.Now().Unix()
 	// contracts 5 and 9 with first levels 9 and 5 collide in the key prefix (5^9 == 9^5)
 	contracts := []uint32{5, 9, 6}
-	levels := []uint32{9, 5, 11, 12}
+	levels := []uint32{9, 5, 11, 255, 0x1ff, 0xffffffff} // ids ending in 0xff: the successor of such a key carries
 	var stored []string
 	var ids []message.ID
 	nStore := 5 + r.Intn(25)
 	for i := 0; i < nStore; i++ {
-		ssid := message.Ssid{contracts[r.Intn(3)], levels[r.Intn(4)]}
+		ssid := message.Ssid{contracts[r.Intn(3)], levels[r.Intn(len(levels))]}
 		for d := r.Intn(3); d > 0; d-- {
-			ssid = append(ssid, levels[r.Intn(4)])
+			ssid = append(ssid, levels[r.Intn(len(levels))])
 		}
 		m := message.New(ssid, []byte("ch"), payload(vlib.Pick(r, 1, 5, 40, 40, 200, 30000)))
 		age := int64(vlib.Pick(r, 0, 1, 1, 2, 2, 3, 10, 100, 5000))
@@ -101,12 +101,12 @@ func one(disk bool, dir string) (string, map[string]interface{}) {
 	var lastSsid message.Ssid
 	var lastFrom, lastUntil int64
 	for q := 0; q < nQ; q++ {
-		ssid := message.Ssid{contracts[r.Intn(3)], levels[r.Intn(4)]}
+		ssid := message.Ssid{contracts[r.Intn(3)], levels[r.Intn(len(levels))]}
 		for d := r.Intn(3); d > 0; d-- {
 			if r.Intn(4) == 0 {
 				ssid = append(ssid, wildcard)
 			} else {
-				ssid = append(ssid, levels[r.Intn(4)])
+				ssid = append(ssid, levels[r.Intn(len(levels))])
 			}
 		}
 		from := int64(0)
@@ -157,5 +157,5 @@ func main() {
 		}
 		sh.Add(t, h, cl, true)
 	}
-	sh.Finish("stores of 5-30 messages over contracts {5,9,6} x first levels {9,5,11,12} (5/9 and 9/5 collide in the 32-bit key prefix) depth 1-3, ages 0..5000 s with many per second, ttl short / long / retained / already expired, payloads up to 30000 bytes (reply-size cap); 6-16 queries each: filters with wildcards, shorter and longer than stored channels, windows, limits 0..100000, continuation from ids of the previous answer or any stored id; in-memory provider and (every 4th) the on-disk provider; non-trivial: all")
+	sh.Finish("stores of 5-30 messages over contracts {5,9,6} x levels {9,5,11,255,0x1ff,0xffffffff} (5/9 and 9/5 collide in the 32-bit key prefix; ids ending in 0xff) depth 1-3, ages 0..5000 s with many per second, ttl short / long / retained / already expired, payloads up to 30000 bytes (reply-size cap); 6-16 queries each: filters with wildcards, shorter and longer than stored channels, windows, limits 0..100000, continuation from ids of the previous answer or any stored id; in-memory provider and (every 4th) the on-disk provider; non-trivial: all")
 }
